@@ -313,6 +313,43 @@ def _r18_1(ctx, run, rule='R18.1'):
     return table
 
 
+def _decode_result(p):
+    """classify what a return path of Number::decode yields: ('Err',) | ('be', variant, source int/float type) | ('const', variant, value)
+    | ('?', variant, text) | None"""
+    import re
+    ret = p.ret
+    res = None
+    if agg_variant(ret) and ret[1][2] == 'Err':
+        res = ('Err',)
+    elif agg_variant(ret) and ret[1][2] == 'Ok':
+        v = ret[2][0]
+        if agg_variant(v) and v[1][1] == NUM:
+            inner = v[2][0]
+            src = strip_casts(inner)
+            if src[0] == 'call' and canon(src[1]).endswith('from_be_bytes'):
+                m = re.search(r'impl (\w+)>::from_be_bytes', src[1])
+                res = ('be', v[1][2], m.group(1) if m else '?')
+            elif inner[0] == 'const':
+                res = ('const', v[1][2], inner[1])
+            elif deref_all(src)[0] == 'index' and const_of(deref_all(src)[2]) == 1 and is_arg(deref_all(src)[1], 1):
+                # the one payload byte itself, widened: u64::from(bytes[1]) is u8::from_be_bytes([bytes[1]]); `bytes[1] as i8 as i64` the i8 form
+                t_ = deref_all(inner)
+                first_cast = None
+                while True:
+                    if t_[0] == 'cast' and t_[1] == 'IntToInt':
+                        first_cast = t_[3]
+                        t_ = deref_all(t_[2])
+                    elif t_[0] == 'call' and t_[2] and len(t_[2]) == 1 and t_ != deref_all(src):
+                        first_cast = None if first_cast is None else first_cast
+                        t_ = deref_all(t_[2][0])
+                    else:
+                        break
+                res = ('be', v[1][2], 'i8' if first_cast == 'i8' else 'u8')
+            else:
+                res = ('?', v[1][2], show(inner)[:60])
+    return res
+
+
 def r18_2(ctx, run, rule='R18.2', enc_table=None):
     """Decoder table: (tag byte, payload length) -> from_be_bytes::<T> and the widening cast; inverse of the encoder;
     every other (tag, length) returns Err."""
@@ -367,6 +404,20 @@ def r18_2(ctx, run, rule='R18.2', enc_table=None):
                             is_len = tl is not None and is_arg(tl, 1)
                     elif a[0] == 'len' and l[1] == -1 and is_arg(a[1], 1):
                         is_len = True
+                whole_len = False
+                if not is_len and len(l[0]) == 1 and list(l[0].values()) == [1] and l[1] == 0:
+                    a = list(l[0])[0]
+                    whole_len = (a[0] == 'len' and is_arg(a[1], 1)) or (a[0] == 'call' and called(a[1], 'slice::len', 'len') and a[2] and is_arg(a[2][0], 1))
+                if whole_len:
+                    # a test of the whole length (slice patterns `[TAG, a, b]`, `bytes.len() == 3`): payload length + 1
+                    if c[1] == 'eq' and isinstance(c[2], int):
+                        plen = c[2] - 1
+                    elif c[1] == 'ne':
+                        # (`len != 0` is the emptiness test, not a payload-length row)
+                        lo_ = tuple(x_ - 1 for x_ in (c[2] if isinstance(c[2], tuple) else (c[2],)) if isinstance(x_, int) and x_ >= 1)
+                        if lo_:
+                            len_other = lo_
+                    continue
                 if is_len:
                     if c[1] == 'eq':
                         plen = c[2]
@@ -374,24 +425,9 @@ def r18_2(ctx, run, rule='R18.2', enc_table=None):
                         len_other = c[2]
                 elif c[1] == 'eq' and not (t[0] == 'discr'):
                     unrec.append(show(t)[:80])
-        ret = p.ret
-        res = None
-        if agg_variant(ret) and ret[1][2] == 'Err':
-            res = ('Err',)
-        elif agg_variant(ret) and ret[1][2] == 'Ok':
-            v = ret[2][0]
-            if agg_variant(v) and v[1][1] == NUM:
-                inner = v[2][0]
-                src = strip_casts(inner)
-                if src[0] == 'call' and canon(src[1]).endswith('from_be_bytes'):
-                    import re
-                    m = re.search(r'impl (\w+)>::from_be_bytes', src[1])
-                    res = ('be', v[1][2], m.group(1) if m else '?')
-                elif inner[0] == 'const':
-                    res = ('const', v[1][2], inner[1])
-                else:
-                    res = ('?', v[1][2], show(inner)[:60])
-                    unrec.append(res[2])
+        res = _decode_result(p)
+        if res is not None and res[0] == '?':
+            unrec.append(res[2])
         if tag is None and not tag_other and res != ('Err',):
             unrec.append('no tag test on the path to ' + str(res)[:60])
         lkey = plen if plen is not None else ('otherwise' if len_other is not None else None)
@@ -408,7 +444,7 @@ def r18_2(ctx, run, rule='R18.2', enc_table=None):
                                 lkey = ('range', r_.lo() - 1, (r_.hi() - 1) if r_.hi() != INF else INF)
             except Exception:
                 pass
-        key = (tname.get(tag, tag) if not tag_other else 'otherwise', lkey)
+        key = (tname.get(tag, tag) if (tag is not None or not tag_other) else 'otherwise', lkey)
         table.setdefault(key, set()).add(res)
     loc = f'{b.file}:{b.line}'
     exp = {
@@ -426,12 +462,51 @@ def r18_2(ctx, run, rule='R18.2', enc_table=None):
     }
     if capped:
         unrec.append('path cap exceeded')
+    # second reading, independent of how the table is written: the return paths evaluated for concrete (tag byte, total length) pairs
+    from enumeval import tag_len_paths, NotEvaluated
+    rets = [p for p in ps if p.end[0] == 'return']
+    feas = tag_len_paths(rets, 1) if not capped and all(p.end[0] in ('return', 'unreachable', 'panic') for p in ps) else None
+    valid_len = {'NUMBER_INT': (1, 2, 4, 8), 'NUMBER_UINT': (1, 2, 4, 8), 'NUMBER_FLOAT': (8,)}
+
+    def eval_row(k):
+        """the set of results the decoder has for the inputs of row k, by evaluation; None when some condition is not evaluated"""
+        if feas is None:
+            return None
+        if k[0] == 'otherwise':
+            cases = [(T, n) for T in range(256) if T not in tname for n in (1, 2, 3, 5, 9)] + [(0, 0)]
+        elif k[1] is None:
+            cases = [(tags[k[0]], 1)]
+        elif k[1] == 'otherwise':
+            cases = [(tags[k[0]], L + 1) for L in (0, 3, 5, 6, 7, 9, 10, 12, 16, 17) if L not in valid_len[k[0]]]
+        else:
+            cases = [(tags[k[0]], k[1] + 1)]
+        out = set()
+        try:
+            for T, n in cases:
+                qs = feas(T, n)
+                if not qs:
+                    return None       # no return path for an input: a panic / unexplored exit, not tabulated here
+                for q in qs:
+                    out.add(_decode_result(q))
+        except NotEvaluated:
+            return None
+        return out
+
     for k, v in exp.items():
         got = table.get(k)
         d = f'row[{k[0]},{k[1] if k[1] is not None else "-"}]'
         if got == v:
             run.proved(rule, b.path, d, f'-> {sorted(v)[0]}', loc)
         else:
+            ev_ = eval_row(k)
+            if ev_ is not None and all(r is not None and r[0] != '?' for r in ev_):
+                nan_ok = k[0] == 'NUMBER_NAN' and ev_ and all(r[0] == 'const' and r[1] == 'Float64' and str(r[2]).startswith('bits:') and _is_nan_bits(r[2]) for r in ev_)
+                if ev_ == v or nan_ok:
+                    run.proved(rule, b.path, d, f'-> {sorted(v)[0]} (return paths evaluated for this tag byte and length)', loc)
+                else:
+                    run.violation(rule, b.path, d, f'expected {sorted(v)}, but for this tag byte and payload length the decoder yields {sorted(map(str, ev_))} (return paths evaluated for '
+                                  'concrete (tag, length) pairs): the decoder does not invert the encoder here', loc)
+                continue
             # NaN bit pattern may legitimately be any NaN: accept any Float64 NaN constant
             if k[0] == 'NUMBER_NAN' and got and all(r and r[0] == 'const' and r[1] == 'Float64' and str(r[2]).startswith('bits:') and _is_nan_bits(r[2]) for r in got):
                 run.proved(rule, b.path, d, '-> Float64(NaN)', loc)
